@@ -445,7 +445,9 @@ namespace pika {
           : callback_(std::forward<CB>(cb))
           , state_(st.state_)
         {
-            if (state_) state_->add_callback(this);
+            // nothing to deregister when registration was refused (stop is not
+            // possible) or the callback has already run in this constructor
+            if (state_ && !state_->add_callback(this)) state_.reset();
         }
 
         template <typename CB,
@@ -456,7 +458,9 @@ namespace pika {
           : callback_(std::forward<CB>(cb))
           , state_(std::move(st.state_))
         {
-            if (state_) state_->add_callback(this);
+            // nothing to deregister when registration was refused (stop is not
+            // possible) or the callback has already run in this constructor
+            if (state_ && !state_->add_callback(this)) state_.reset();
         }
 
         // Effects: Unregisters the callback from the owned stop state, if any.
